@@ -1,5 +1,6 @@
 """C09 - comments are inert and preserved."""
 import ast
+import types as _types
 import io
 import itertools
 import tokenize
@@ -32,7 +33,7 @@ FUZZ = {'runs': 30000}   # thorough tier: 16 atheris campaigns of this many exec
 
 TEXTS = ['x', 'a\n\nb', "it's # (k: v, [", 'w1 w2 w3 w4 w5 w6 w7', '  lead\n  \ntrail  ', '"\\']
 LEAVES = [['int', 1], ['str', 'a b'], ['tuple', []]]
-SUPPORTS_TRAILING = ('list', 'tuple', 'set', 'dict')
+SUPPORTS_TRAILING = ('list', 'tuple', 'set', 'dict', 'call:nt', 'call:ns')
 
 
 def _paths(r, prefix=()):
@@ -117,6 +118,13 @@ def fixed_cases():
             yield {'v': [kind, 'words of the comment', ['sub', base, 'plain', inner]], 'width': 30, 'ribbon': 30, 'indent': 4}
             yield {'v': ['list', [[kind, 'words of the comment', ['sub', base, 'plain', inner]], ['int', 0]]], 'width': 30, 'ribbon': 30, 'indent': 4}
     yield {'v': ['tuple', [['cmt', 'x', ['int', 1]]]], 'width': 79, 'ribbon': 71, 'indent': 4}          # D5
+    # namedtuples / SimpleNamespaces carrying a trailing comment themselves (and commented fields)
+    for w in (79, 15):
+        for kind in ('nt', 'ns'):
+            node = ['call', kind, [], [['a', ['cmt', 'field a', ['int', 1]]], ['b', ['list', [['int', 2]]]]]]
+            yield {'v': ['tcmt', 'after the fields', node], 'width': w, 'ribbon': w, 'indent': 4}
+            yield {'v': ['list', [['tcmt', 'after the fields', node], ['cmt', 'above', ['call', kind, [], [['a', ['int', 0]], ['b', ['tcmt', 'inner trailing', ['list', [['int', 1]]]]]]]]]], 'width': w, 'ribbon': w, 'indent': 4}
+        yield {'v': ['tcmt', 'empty namespace', ['call', 'ns', [], []]], 'width': w, 'ribbon': w, 'indent': 4}
     # sort_dict_keys with comments on keys (a comment does not change where a key sorts) and on values
     for w in (79, 12):
         yield {'v': ['dict', [[['cmt', 'note b', ['str', 'b']], ['int', 1]], [['str', 'a'], ['int', 2]], [['cmt', 'note c', ['str', 'c']], ['cmt', 'val', ['int', 3]]], [['str', 'aa'], ['int', 0]]]],
@@ -177,6 +185,9 @@ def strategy(tier):
             st.tuples(st.sampled_from(['box', 'alt']), st.lists(ch, max_size=3),
                       st.lists(st.tuples(st.sampled_from(['a', 'b', 'kw']), ch).map(list), max_size=2, unique_by=lambda p: p[0])).map(
                 lambda p: ['call', p[0], p[1], p[2]]),
+            # namedtuples and SimpleNamespaces (printed as calls with keyword arguments; their printers take a trailing comment)
+            st.tuples(ch, ch).map(lambda p: ['call', 'nt', [], [['a', p[0]], ['b', p[1]]]]),
+            st.lists(ch, max_size=2).map(lambda xs: ['call', 'ns', [], [[n, x] for n, x in zip(['a', 'b'], xs)]]),
             # instances of subclasses of the containers (same printers; empty ones take the call path)
             st.tuples(st.sampled_from(['plain', 'repr']), st.lists(ch, max_size=2)).map(lambda p: ['sub', 'list', p[0], ['list', p[1]]]),
             st.tuples(st.sampled_from(['plain', 'str']), st.lists(ch, max_size=2)).map(lambda p: ['sub', 'tuple', p[0], ['tuple', p[1]]]),
@@ -223,6 +234,8 @@ def reference_words(r, out, dropped):
             reference_words(k, out, dropped)
             reference_words(v, out, dropped)
     elif t == 'call':
+        if r[1] in ('nt', 'ns'):
+            base = 'call:' + r[1]       # namedtuple / SimpleNamespace: printers that take a trailing comment
         for a in r[2]:
             reference_words(a, out, dropped)
         for _, a in r[3]:
@@ -272,6 +285,8 @@ def _keys_comparable(v):
         return all(_keys_comparable(x) for x in v)
     if isinstance(v, vtypes.Box):
         return all(_keys_comparable(x) for x in v.args) and all(_keys_comparable(x) for x in v.kwargs.values())
+    if isinstance(v, _types.SimpleNamespace):
+        return all(_keys_comparable(x) for x in v.__dict__.values())
     return True
 
 
@@ -284,6 +299,8 @@ def n_entries(v):
         return len(v) + sum(n_entries(k) + n_entries(x) for k, x in v.items())
     if isinstance(v, vtypes.Box):
         return sum(n_entries(x) for x in v.args) + sum(n_entries(x) for x in v.kwargs.values())
+    if isinstance(v, _types.SimpleNamespace):
+        return sum(n_entries(x) for x in v.__dict__.values())
     return 0
 
 
